@@ -80,6 +80,7 @@ Definition spec_step1 (l : list K) (o : op) : list K * res ret :=
   | Clear => ([], Ok RNone)
   | Sort r => (py_sorted l r, Ok RNone)
   | Reverse => (rev l, Ok RNone)
+  | SortKey m r => (py_sorted_key l m r, Ok RNone)
   | Update os => (s_union l os, Ok RNone)
   | IntersectionUpdate os => (s_inter l os, Ok RNone)
   | DifferenceUpdate os => (s_diff l os, Ok RNone)
@@ -135,6 +136,7 @@ Definition valid_op (l : list K) (o : op) : bool :=
   | Pop (Some i) | GetItem i =>
       match norm_index (length l) i with Some _ => true | None => false end
   | Slice _ _ (Some 0) => false
+  | SortKey 0 _ => false                                     (* x % 0 raises *)
   | Cmp (CLe | CLt | CGe | CGt) o => nodupb (o_elems o)      (* the other side is a set *)
   | _ => true
   end.
